@@ -51,6 +51,14 @@ def target_src(kind, params, deco_names, call_args):
         return "class K:\n" + ind("@classmethod\n" + decos + "def f(cls, {}):\n{}".format(params, body)), "K.f({})".format(call_args)
     if kind == "pset":
         return "class K:\n" + ind("@property\ndef f(self):\n    return 1\n@f.setter\n" + decos + "def f(self, {}):\n{}".format(params, body)), None
+    if kind in ("inherited_method", "inherited_classm", "inherited_amethod"):
+        # the decorators stand in the BASE class (whose function has ordinary parameters); the sub-class overrides the function without
+        # any decorator - its checker is made by the meta-class - and its parameter list is the one under test
+        head = {"inherited_method": ("", "def f(self, "), "inherited_classm": ("@classmethod\n", "def f(cls, "), "inherited_amethod": ("", "async def f(self, ")}[kind]
+        base = "class B(icontract.DBC):\n" + ind(head[0] + decos + head[1] + "x, y=None):\n" + body)
+        sub = "class K(B):\n" + ind(head[0] + head[1] + "{}):\n{}".format(params, body))
+        callexpr = ("RUN(K().f({}))" if kind == "inherited_amethod" else "K.f({})" if kind == "inherited_classm" else "K().f({})").format(call_args)
+        return base + sub, callexpr
     raise ValueError(kind)
 
 
@@ -76,6 +84,14 @@ def cases():
                                    ("x, {}=None".format(reserved), "1"), ("{}, /, x".format(reserved), "1, 2")):
                     add("param_{}_form/{}/{}".format(reserved, form.replace(" ", ""), kind), {"D": "icontract.require(cond_true)"}, kind, form, ["D"], call,
                         ("decorate", "TypeError"), "reserved_parameter")
+        # 1b. the same parameter in a function which overrides a contracted one WITHOUT decorators of its own (checker made by the meta-class)
+        if kind in ("method", "classm", "amethod"):
+            for reserved in ("_ARGS", "_KWARGS"):
+                for dname, dexpr in (("require", "icontract.require(cond_true)"), ("ensure", "icontract.ensure(cond_true)")):
+                    add("param_{}/{}/inherited_{}".format(reserved, dname, kind), {"D": dexpr}, "inherited_" + kind, "x, " + reserved, ["D"], "1, 2",
+                        ("decorate", "TypeError"), "reserved_parameter")
+            # (control: an ordinary override is accepted and checked)
+            add("control/require/inherited_{}".format(kind), {"D": "icontract.require(cond_true)"}, "inherited_" + kind, "x, y=None", ["D"], "1, 2", ("ok",), "control")
         # 2. keyword argument named _ARGS / _KWARGS at the call
         if kind != "pset":
             for reserved in ("_ARGS", "_KWARGS"):
